@@ -2,7 +2,7 @@
    Lang.vcmp / Lang.veq are the extracted functions the crate's Value::cmp / == are compared with on every pair of the pool. *)
 From Flocq Require Import Core BinarySingleNaN.
 Require Import ZArith NArith Bool List Arith Permutation Sorted. Import ListNotations.
-Require Import F64 Dec Types Generic Lang Order OrderInst Builtins OrderFacts GenInterp InterpFacts.
+Require Import F64 Dec Types Generic Lang Order OrderInst Builtins OrderFacts InterpTypes InterpRead GenValueOrd InterpOrd.
 
 (* for ALL values: a<b iff b>a, a<=b iff not a>b, a<>b iff not a=b, = symmetric, the order is total *)
 Theorem C13_antisym : forall a b, Lang.vcmp b a = CompOpp (Lang.vcmp a b).
@@ -56,5 +56,3 @@ Theorem C13_order_is_the_table : forall a b, Some (vcmp a b) = tab_cmp a b.
 Proof. exact vcmp_is_the_table. Qed.
 Theorem C13_equality_is_the_table : forall a b, Some (veq a b) = tab_eq a b.
 Proof. exact veq_is_the_table. Qed.
-Theorem C13_comparison_operators_are_the_table : forall o lv rv, Some (binop o lv rv) = tab_inner o lv (Ok rv).
-Proof. exact binop_is_the_table. Qed.
